@@ -221,11 +221,32 @@ def chain_molecules(package_dir):
     return s
 
 
+def water_cell_bounded_coulomb(package_dir):
+    """water/coulomb_cell_veto_lj_inverted.ini with the Coulomb interaction between far molecules treated by the cell
+    bounding potential instead of the cell-veto algorithm (sections as in dipoles/cell_bounded.ini): one cell bounding
+    potential is asked with the charges of the oxygen and of the hydrogens in turn."""
+    s = scenario_module.load_ini(package_dir, "2018_JCP_149_064113/water/coulomb_cell_veto_lj_inverted.ini")
+    s["TagActivator"]["taggers"] = s["TagActivator"]["taggers"].replace(
+        "coulomb_cell_veto (cell_veto_tagger)", "coulomb_cell_veto (cell_bounding_potential_tagger)")
+    s["CoulombCellVeto"]["event_handler"] = ("coulomb_cell_bounding_event_handler "
+                                             "(two_composite_object_cell_bounding_potential_event_handler)")
+    s["CoulombCellVeto"]["number_event_handlers"] = "1"
+    s.pop("CoulombCellVetoEventHandler", None)
+    s["CoulombCellBoundingEventHandler"] = {"potential": "merged_image_coulomb_potential",
+                                            "bounding_potential": "cell_bounding_potential",
+                                            "lifting": "inside_first_lifting", "charge": "electric_charge"}
+    s["CellBoundingPotential"] = {"estimator": "dipole_monte_carlo_estimator"}
+    s["DipoleMonteCarloEstimator"]["number_trials"] = "60"
+    s["FinalTimeEndOfRunEventHandler"]["end_of_run_time"] = "50"
+    return s
+
+
 BUILDERS = {"soft_spheres": soft_spheres, "lj_atoms": lj_atoms, "hard_spheres": hard_spheres,
             "hard_disks": hard_disks, "hard_disk_dipoles": hard_disk_dipoles,
             "hard_disk_dipoles_cells": hard_disk_dipoles_cells, "cuboid_hard_cells": cuboid_hard_cells,
             "cuboid_soft": cuboid_soft, "water_motion": water_motion, "dip_atom_phase": dip_atom_phase,
-            "soft_disks": soft_disks, "chain_molecules": chain_molecules}
+            "soft_disks": soft_disks, "chain_molecules": chain_molecules,
+            "water_cell_bounded_coulomb": water_cell_bounded_coulomb}
 
 
 def build(package_dir, name):
